@@ -130,7 +130,35 @@ Theorem C04_embedded_instances_are_matched : forall (s : egraph) (theta : slotma
 Proof. exact emb_complete. Qed.
 Print Assumptions C04_embedded_instances_are_matched.
 
-Theorem C04_nested_complete_from_embedding : forall s p theta zeta,
-  match_inv s -> repr_emb s -> pat_ok s p -> inst_ok s p theta zeta -> complete_fresh s p theta zeta.
-Proof. exact complete_from_repr_emb. Qed.
-Print Assumptions C04_nested_complete_from_embedding.
+(* third session, third round (EGraph/MatchEmbedRepr{Chk,Chk2,CE,Wv,Listed,Lk,Ext,Data,Node,,Ex}.v): the E-GRAPH SIDE IS PROVED - every represented
+   instance in scope is embedded - in a corrected form: the hypothesis as first stated was FALSE (MatchEmbedReprCE.H_emb_false: it did not
+   require theta to be defined on the pattern's slots); added premises: theta defined on the pattern's slots (inst_ok2), the pattern's nodes
+   carry null placeholders for their children (pat_null: what the parser produces; shown necessary by pat_null_needed), and the run invariant
+   stored2 (no premise for reachable states).  An induction "up to the class group" is false (group_precondition_false: emb is not invariant
+   under the class group); the proof computes the exact invocation bottom-up.
+   NESTED COMPLETENESS, for every history over statically well-formed terms whose final e-graph has no redundant slot (the property's scope):
+   every represented instance of a pattern in scope (bound names bound once and not used free, fresh for the matched class) is reported by the
+   matcher, and the rule fires. *)
+From SE Require Import EGraph.MatchEmbedRepr EGraph.MatchEmbedReprCE.
+Theorem C04_nested_complete_for_all_histories : forall terms ops hs s p theta zeta,
+  List.Forall term_static terms -> run_ops terms ops [] empty_egraph = Ok (hs, s) -> no_redundant s ->
+  pat_ok s p -> pat_null p -> inst_ok2 s p theta zeta -> complete_fresh s p theta zeta.
+Proof. exact nested_complete_reachable_proved. Qed.
+Print Assumptions C04_nested_complete_for_all_histories.
+
+Theorem C04_nested_instance_is_matched_and_fires : forall terms ops hs s rl theta zeta b1 s1,
+  List.Forall term_static terms -> run_ops terms ops [] empty_egraph = Ok (hs, s) -> no_redundant s ->
+  pat_ok s (r_lhs rl) -> pat_null (r_lhs rl) -> inst_ok2 s (r_lhs rl) theta zeta -> r_cond rl = None ->
+  forall a0, MatchMachine.lookup_pat s (pren theta (r_lhs rl)) zeta = Ok (Some a0) -> fresh_binders (r_lhs rl) theta a0 ->
+  apply_rewrites [rl] s = Ok (b1, s1) ->
+  exists l s' sb r, ematch_all (r_lhs rl) s = Ok (l, s') /\ List.In sb l /\ mr_sb r = sb /\
+    describes s' (r_lhs rl) theta zeta a0 r /\
+    exists t a b t1 t2, qstep s t /\ pattern_subst (r_lhs rl) sb t = Ok (a, t1) /\ pattern_subst (r_rhs rl) sb t1 = Ok (b, t2) /\
+      covers s1 a /\ covers s1 b /\ eg_eq s1 a b = Ok true.
+Proof. exact nested_complete_and_fires_reachable_proved. Qed.
+Print Assumptions C04_nested_instance_is_matched_and_fires.
+
+Theorem C04_first_formulation_of_the_embedding_hypothesis_is_false :
+  ~ (forall s, match_inv s -> CongruenceFacts.ss_ok s -> no_redundant s -> repr_emb s).
+Proof. exact H_emb_false. Qed.
+Print Assumptions C04_first_formulation_of_the_embedding_hypothesis_is_false.
